@@ -218,6 +218,43 @@ func runVario(sc M) {
 					end["res"] = "wrongattrs"
 				}
 			}
+		case "objtyped":
+			// the typed accessors of the object API (GetPK / GetKEK / Getdb / Getdbx / GetBootEntry): the definition's required attributes
+			// are checked against the stored mask before the value is decoded
+			o, err = guard(func() error {
+				ef := efivarfs.Open(fsw)
+				var db *signature.SignatureDatabase
+				var e error
+				switch {
+				case name == "PK":
+					db, e = ef.GetPK()
+				case name == "KEK":
+					db, e = ef.GetKEK()
+				case name == "db":
+					db, e = ef.Getdb()
+				case name == "dbx":
+					db, e = ef.Getdbx()
+				default:
+					lo, e2 := ef.GetBootEntry(name)
+					e = e2
+					if e == nil && lo != nil && lo.Description == "Verif Boot Entry" {
+						end["got"] = "lo1"
+					} else if e == nil {
+						end["got"] = "garbage"
+					}
+				}
+				if e == nil && db != nil {
+					end["got"] = identify(db.Bytes())
+				}
+				end["unmarshal_called"] = e == nil
+				return e
+			})
+			if err != nil {
+				end["res"] = "error"
+				if errors.Is(err, efivarfs.ErrIncorrectAttributes) {
+					end["res"] = "wrongattrs"
+				}
+			}
 		case "legacytyped":
 			// the typed accessors of the legacy package (efi.GetPK / GetKEK / Getdb / Getdbx): the variable's required attributes are
 			// checked against the stored mask before the value is decoded as a signature database
